@@ -506,14 +506,9 @@ func innerEqualType(type1, type2 SessionType, snapshots map[string]bool, labelle
 			}
 		}
 
-		// Add new snapshot
-		var newSnapshot bytes.Buffer
-		newSnapshot.WriteString(type1.String())
-		newSnapshot.WriteString(type1.Modality().String())
-		newSnapshot.WriteString("|")
-		newSnapshot.WriteString(type2.String())
-		newSnapshot.WriteString(type2.Modality().String())
-		snapshots[newSnapshot.String()] = true
+		// Add new snapshot: the pair as it was compared (i.e. before expanding the labels),
+		// which is the key looked up above
+		snapshots[presentSnapshot.String()] = true
 
 		return innerEqualType(type1, type2, snapshots, labelledTypesEnv)
 	}
